@@ -184,6 +184,26 @@ def run(chk, facts, tier, only=None):
             h = c.method(r"^candid::de::Deserializer", fname, "")
             chk.analysed(h["key"])
             producers[ctor] = first_byte_of_buffer(h)
+        # the big-number payloads: int buffers carry the two's-complement bytes of a BigInt, nat buffers the magnitude bytes of a BigUint —
+        # what follows the tag is produced by exactly that conversion and by nothing else (a hand-rolled sign byte is a second encoder)
+        for fname, conv in (("deserialize_int", "to_signed_bytes_le"), ("deserialize_nat", "to_bytes_le")):
+            h = c.method(r"^candid::de::Deserializer", fname, "")
+            appends = [x for x in walk(h["body"]) if x.get("k") == "mcall" and x["m"] in ("extend_from_slice", "extend", "push", "append", "insert", "resize")
+                       and (expr_path(x["recv"]) or "") not in ("", "self") and "Vec<u8>" in str(x.get("recv_ty") or "")]
+            if not appends:
+                raise AnchorMissing(f"{fname}: no append to the tagged byte buffer found")
+            odd = [x for x in appends if not any(y.get("k") == "mcall" and y["m"] == conv for y in walk(x["args"][0] if x.get("args") else {}))]
+            chk.expect(not odd, f"payload:{fname}:{conv}",
+                       f"Deserializer::{fname} appends to its tagged buffer something that is not `.{conv}()` of the decoded number "
+                       f"(`.{odd[0]['m'] if odd else ''}(..)` at line {odd[0].get('ln') if odd else ''}): the consumer reads the payload with the inverse of `{conv}`, so a "
+                       f"hand-made byte sequence (e.g. magnitude bytes plus a conditional zero byte) is read as a different number for some values",
+                       where=f"{h['span']['file']}:{odd[0].get('ln') if odd else ''}", ok_detail=f"the payload is {conv}()")
+        for rx, conv in ((r"number::.*IntVisitor$", "from_signed_bytes_le"), (r"number::.*NatVisitor$", "from_bytes_le")):
+            hs = [h_ for k_, h_ in c.hir.items() if re.search(rx.replace("$", "") + r" as serde_core::de::Visitor<'(?:de|_)>>::visit_byte_buf$", k_)]
+            if not hs:
+                raise AnchorMissing(f"visit_byte_buf of /{rx}/ not found")
+            chk.expect(any(re.search(conv + "$", callee(x) or "") for x in walk(hs[0]["body"]) if x.get("k") in ("call", "mcall")), f"payload:consumer:{conv}",
+                       f"{hs[0]['key']} does not read the payload with {conv}", ok_detail=conv)
         chk.expect(None not in producers.values() and len(set(producers.values())) == len(producers), "producer-tags-distinct",
                    f"every producer of a tagged byte buffer must start it with its own distinct tag byte; found {producers}",
                    ok_detail=str(producers))
